@@ -42,6 +42,58 @@ func collect(dir string) []mut {
 	})
 	sort.Strings(files)
 	var out []mut
+	// fields of the structs declared in each package directory: name -> type text, and siblings by type
+	type fieldInfo struct{ strct, typ string }
+	pkgFields := map[string]map[string]fieldInfo{}
+	constBlock := map[string][]string{} // "pkgname.Const" -> the other constants of its declaration block
+	for _, f := range files {
+		fset := token.NewFileSet()
+		af, err := parser.ParseFile(fset, f, nil, 0)
+		if err != nil {
+			continue
+		}
+		for _, dcl := range af.Decls {
+			gd, ok := dcl.(*ast.GenDecl)
+			if !ok || gd.Tok != token.CONST {
+				continue
+			}
+			var names []string
+			for _, sp := range gd.Specs {
+				for _, nm := range sp.(*ast.ValueSpec).Names {
+					names = append(names, nm.Name)
+				}
+			}
+			for _, nm := range names {
+				for _, o := range names {
+					if o != nm {
+						constBlock[af.Name.Name+"."+nm] = append(constBlock[af.Name.Name+"."+nm], o)
+					}
+				}
+			}
+		}
+		src, _ := os.ReadFile(f)
+		d := filepath.Dir(f)
+		if pkgFields[d] == nil {
+			pkgFields[d] = map[string]fieldInfo{}
+		}
+		ast.Inspect(af, func(n ast.Node) bool {
+			ts, ok := n.(*ast.TypeSpec)
+			if !ok {
+				return true
+			}
+			st, ok := ts.Type.(*ast.StructType)
+			if !ok {
+				return true
+			}
+			for _, fl := range st.Fields.List {
+				tt := string(src[fset.Position(fl.Type.Pos()).Offset:fset.Position(fl.Type.End()).Offset])
+				for _, nm := range fl.Names {
+					pkgFields[d][nm.Name] = fieldInfo{ts.Name.Name, tt}
+				}
+			}
+			return true
+		})
+	}
 	for _, f := range files {
 		fset := token.NewFileSet()
 		af, err := parser.ParseFile(fset, f, nil, 0)
@@ -122,6 +174,49 @@ func collect(dir string) []mut {
 				if x.Init == nil {
 					p0, p1 := fset.Position(x.Cond.Pos()).Offset, fset.Position(x.Cond.End()).Offset
 					out = append(out, mut{file: rel, off: p0, end: p1, repl: "!(" + string(src[p0:p1]) + ")", kind: "negate-if", old: string(src[p0:p1]), line: fset.Position(x.Cond.Pos()).Line})
+				}
+			case *ast.CallExpr:
+				// swap two adjacent arguments that are plain identifiers or selectors
+				for k := 0; k+1 < len(x.Args); k++ {
+					simple := func(e ast.Expr) bool {
+						switch e.(type) {
+						case *ast.Ident, *ast.SelectorExpr:
+							return true
+						}
+						return false
+					}
+					if simple(x.Args[k]) && simple(x.Args[k+1]) {
+						a0, a1 := fset.Position(x.Args[k].Pos()).Offset, fset.Position(x.Args[k].End()).Offset
+						b0, b1 := fset.Position(x.Args[k+1].Pos()).Offset, fset.Position(x.Args[k+1].End()).Offset
+						out = append(out, mut{file: rel, off: a0, end: b1, repl: string(src[b0:b1]) + string(src[a1:b0]) + string(src[a0:a1]), kind: "arg-swap", old: string(src[a0:b1]), line: fset.Position(x.Pos()).Line})
+					}
+				}
+			case *ast.SelectorExpr:
+				// confuse a constant of another package with a neighbour of its declaration block
+				if pk, ok := x.X.(*ast.Ident); ok {
+					sibs := constBlock[pk.Name+"."+x.Sel.Name]
+					for k, nm := range sibs {
+						if k >= 2 {
+							break
+						}
+						add(x.Sel.Pos(), len(x.Sel.Name), nm, "const-swap")
+					}
+				}
+				// confuse a field with a sibling field of the same type
+				if fi, ok := pkgFields[filepath.Dir(f)][x.Sel.Name]; ok {
+					var sibs []string
+					for nm, o := range pkgFields[filepath.Dir(f)] {
+						if nm != x.Sel.Name && o.strct == fi.strct && o.typ == fi.typ {
+							sibs = append(sibs, nm)
+						}
+					}
+					sort.Strings(sibs)
+					for k, nm := range sibs {
+						if k >= 3 {
+							break
+						}
+						add(x.Sel.Pos(), len(x.Sel.Name), nm, "field-swap")
+					}
 				}
 			case *ast.AssignStmt:
 				// drop a plain (re)assignment: keep the right-hand side's evaluation
